@@ -20,7 +20,7 @@ class Monitor:
         self.apps = apps            # app -> dict(seq, sfs)
         self.status = {ns: 'idle' for ns in procs}
         self.required_failed = {}   # app -> lowest start_sequence at which a required process failed to start
-        self.unplaced = set()       # required processes given up before any request (nobody can take them)
+        self.unplaced = set()       # processes given up before any request (nobody can take them)
         self.stops_after_failure = {}
 
     def finished(self, ns):
@@ -76,9 +76,9 @@ class Monitor:
         if forced and self.status[ns] == 'idle':
             # given up before any request went out (no Supvisors instance can take it: 'No resource available')
             self.status[ns] = 'failed'
+            self.unplaced.add(ns)
             if d['required']:
                 self._required_failure(d)
-                self.unplaced.add(ns)
             return
         if self.status[ns] not in ('requested', 'starting'):
             return
@@ -214,13 +214,14 @@ def run(src, napps=1, nprocs=2, behaviours=BEHAVIOURS, rounds=9, auto=True, loss
         if mon.required_failed.get(app_name) is not None and ad['sfs'] == 'STOP' and not never_exits:
             src.reach('stop-strategy')
             running = [n for n, p in core.context.applications[app_name].processes.items() if p.running()]
-            # finding F24b: a required process that nobody can take ('No resource available': disabled, or its only host
-            # lost) fails synchronously while its start_sequence group is being requested; the processes of the same
-            # group that are requested all the same escape the STOP
+            # finding F24b: a process that nobody can take ('No resource available': disabled, or its only host lost) is
+            # given up synchronously while its start_sequence group is being requested: the forced event re-enters the
+            # Starter, which finds the application job empty and closes it; the processes of the same group requested
+            # afterwards are orphans - they escape the STOP, and their own failure is not seen by the job any more
             sibling = any(procs[u]['app'] == app_name and d['app'] == app_name and ns != u
                           and d['seq'] == procs[u]['seq'] and mon.status[ns] != 'idle'
                           for u in mon.unplaced for ns, d in procs.items())
-            sig = 'STOP:unplaceable-required-process-with-a-sibling-of-its-sequence' if sibling else 'STOP'
+            sig = 'STOP:unplaceable-process-with-a-sibling-of-its-sequence' if sibling else 'STOP'
             src.check('stop-strategy-stops-the-application', not running, sig=sig, running=running)
     src.check('no-internal-error', not core.logger.tracebacks(), log=core.logger.tracebacks()[:1])
     src.obs('status', dict(mon.status))
